@@ -7,82 +7,6 @@ from ..model import norm, parents, enclosing
 from ..util import require_func, execute_sites, calls_in, call_attr, is_name, const_str, kwarg
 
 
-def fmt_shape(e, resolver=None):
-    sh = _fmt_shape(e)
-    if sh is None or resolver is None:
-        return sh
-    out = []
-    for part in sh:
-        if isinstance(part, tuple) and part[1].isidentifier():
-            v = resolver(part[1])
-            if v is not None:
-                out.append(("expr", norm(v)))
-                continue
-        out.append(part)
-    return out
-
-
-def _fmt_shape(e):
-    """['%s_%s' % (a, b)], a + '_' + str(b), f'{a}_{b}'  ->  [a, '_', b] with
-    expressions normalised to source text."""
-    if isinstance(e, ast.BinOp) and isinstance(e.op, ast.Mod) and const_str(e.left) is not None:
-        args = e.right.elts if isinstance(e.right, ast.Tuple) else [e.right]
-        parts = const_str(e.left).split("%s")
-        if len(parts) - 1 != len(args):
-            return None
-        out = []
-        for i, p in enumerate(parts):
-            if p:
-                out.append(p)
-            if i < len(args):
-                out.append(("expr", norm(args[i])))
-        return out
-    if isinstance(e, ast.BinOp) and isinstance(e.op, ast.Add):
-        l, r = _fmt_shape(e.left), _fmt_shape(e.right)
-        if l is None or r is None:
-            return None
-        return l + r
-    if isinstance(e, ast.JoinedStr):
-        out = []
-        for p in e.values:
-            if isinstance(p, ast.Constant):
-                out.append(p.value)
-            else:
-                out.append(("expr", norm(p.value)))
-        return out
-    if isinstance(e, ast.Call) and is_name(e.func, "str") and len(e.args) == 1:
-        return [("expr", norm(e.args[0]))]
-    if isinstance(e, ast.Call) and call_attr(e) == "format" and const_str(e.func.value) is not None:
-        s = const_str(e.func.value)
-        out, i, auto = [], 0, 0
-        while i < len(s):
-            j = s.find("{", i)
-            if j < 0:
-                out.append(s[i:])
-                break
-            if j > i:
-                out.append(s[i:j])
-            k = s.find("}", j)
-            fld = s[j + 1:k]
-            if fld == "":
-                idx = auto
-                auto += 1
-            elif fld.isdigit():
-                idx = int(fld)
-            else:
-                return None
-            if idx >= len(e.args):
-                return None
-            out.append(("expr", norm(e.args[idx])))
-            i = k + 1
-        return out
-    if isinstance(e, ast.Constant) and isinstance(e.value, str):
-        return [e.value]
-    if isinstance(e, (ast.Name, ast.Attribute, ast.Subscript)):
-        return [("expr", norm(e))]
-    return None
-
-
 def r1_r2_r3(ctx):
     """The id derivation as a decision table: _id_handler (with _increment_featuretype_autoid inlined) is evaluated by the
     partitioned dataflow for every documented form of id_spec against symbolic features; the abstract result of each
@@ -155,21 +79,6 @@ def r1_r2_r3(ctx):
                                                                " counters=%s" % counters if counters else "", got),
                detail=None if ok else "expected %s" % (want,))
     ctx.extra["id_handler_cases"] = len(CASES)
-
-
-def _guards(node, stop):
-    out = []
-    child = node
-    for p in parents(node):
-        if p is stop:
-            break
-        if isinstance(p, ast.If):
-            if any(child is s for s in p.body):
-                out.append((p.test, True))
-            elif any(child is s for s in p.orelse):
-                out.append((p.test, False))
-        child = p
-    return out
 
 
 def r4(ctx):
